@@ -274,8 +274,14 @@ type Report struct {
 
 func firstWord(s string) string {
 	if i := strings.IndexByte(s, ' '); i >= 0 {
-		s = s[:i]
+		return s[:i]
 	}
+	return s
+}
+
+// kindWord is firstWord for the distribution report: long data words are folded into one bucket.
+func kindWord(s string) string {
+	s = firstWord(s)
 	if len(s) > 12 {
 		return "<data>"
 	}
@@ -310,9 +316,9 @@ func checkBatch(e Engine, d *Driver, cases []Case, rep *Report, seed uint64) []F
 			}
 			for j, op := range realOps(c.Ops) {
 				rep.Ops++
-				rep.OpKinds[firstWord(op)]++
+				rep.OpKinds[kindWord(op)]++
 				if j < len(impl) {
-					rep.AnswerKinds[firstWord(op)+"->"+firstWord(impl[j])]++
+					rep.AnswerKinds[kindWord(op)+"->"+kindWord(impl[j])]++
 				}
 				if model != nil && j < len(model[i]) && strings.HasPrefix(model[i][j], "unsupported") {
 					rep.Unsupported++
